@@ -16,7 +16,7 @@ fi
 CAUGHT=""
 for c in $CHECKS; do
   start=$(date +%s)
-  out=$(cd /verif && timeout 1500 ./check "$c" --tier quick 2>&1)
+  out=$(cd /verif && timeout 400 ./check "$c" --tier quick 2>&1)
   code=$?
   secs=$(( $(date +%s) - start ))
   if echo "$out" | grep -q "^VIOLATION"; then
@@ -24,7 +24,7 @@ for c in $CHECKS; do
     echo "$c: VIOLATION (${secs}s) $cls"
     CAUGHT="$CAUGHT $c"
   else
-    echo "$c: silent (exit $code, ${secs}s)"
+    if [ $code -eq 124 ]; then echo "$c: timeout (${secs}s)"; else echo "$c: silent (exit $code, ${secs}s)"; fi
   fi
 done
 echo "caught by:${CAUGHT:- none}"
